@@ -338,7 +338,7 @@ def check_property(prop, tier, seed, jobs=None):
                    "solver": o.get("backend"), "no_failing_input_found": not confirmed},
                   open(os.path.join(ROOT, path), "w"), indent=1)
         violations.append((name, path, confirmed))
-    for f in standin.get("failures", []):
+    for f in standin.get("failures", [])[:2]:
         fid = f.get("known")
         if fid and fid in known_ids:
             continue
